@@ -1,7 +1,6 @@
 package main
 
 func extractRateLimiter() {}
-func extractItem()        {}
 func extractPause()       {}
 func extractStats()       {}
 func extractQueue()       {}
